@@ -427,6 +427,9 @@ def main(rep, tier, only):
         (rep.fail if why else rep.ok)("CARRY", "next_position|N=%s" % N, F.primary_site(fn), F.describe(fn)[:160],
                                       **({"why": why} if why else {"how": "compare/rewind component i, increment component i+1", "detail": {"steps": nops}}))
     rep.extra["exhaustive_over_orders"] = True
+    if only in (None, "OFFSET", "NEXT", "END", "LAST-END", "POSIT"):
+        from checks import c08_arith
+        c08_arith.rules(rep, db, only)
     rep.explanation = ("Comparison clauses by abstract interpretation over weak orders with index coverage; at_optional / in_range by "
                        "decision table; cell provenance of map / apply / resize / fill by interpreting the per-position function with a "
                        "symbolic position. Necessary conditions of the property's last sentence; the row-major bijection and range "
